@@ -48,6 +48,10 @@ def gen_cases(ctx):
     for i in range(ctx.scale(5000, 120000)):
         inst = gen.gen_instance(rng, None, max_jobs=rng.choice([2, 3, 4, 5]), max_machines=rng.choice([2, 3, 4, 5]))
         yield {"kind": "builders", "instance": inst, "seed": rng.randrange(2**31)}
+    for i, n in enumerate(["ft06", "la01"] if ctx.tier == "quick" else
+                          ["ft06", "ft10", "la01", "la06", "la16", "orb01", "abz5", "swv01"]):
+        if i % ctx.nshards == ctx.shard:
+            yield {"kind": "benchmark", "name": n, "seed": i, "instance": {"cls": "benchmark"}}
     for i in range(ctx.scale(2500, 60000)):
         inst = gen.gen_instance(rng, rng.choice(gen.POSITIVE_CLASSES), max_jobs=rng.choice([2, 3, 4, 5]),
                                 max_machines=rng.choice([2, 3, 4]))
@@ -220,6 +224,22 @@ def check_solved(ctx, r, schedule, makespan, built_by_dispatcher, where):
 
 def run_case(ctx, case):
     rng = random.Random(case["seed"])
+    if case["kind"] == "benchmark":
+        from job_shop_lib.benchmarking import load_benchmark_instance
+        from job_shop_lib.dispatching.rules import DispatchingRuleSolver
+        from ._dispatch_workload import inst_from_library
+        instance = load_benchmark_instance(case["name"])
+        inst = inst_from_library(instance)
+        r = Ref(inst)
+        for name, b in builders().items():
+            wn, we = spec(r, name)
+            check_graph(ctx, r, instance, name, b(instance), wn, we, "benchmark " + case["name"])
+            ctx.count("builder_checks")
+        S = DispatchingRuleSolver("most_work_remaining").solve(instance)
+        check_solved(ctx, r, S, S.makespan(), True, "benchmark rule schedule")
+        ctx.count("benchmark_instances")
+        ctx.note_case(case, True, fingerprint="bench:" + case["name"])
+        return
     inst = case["instance"]
     r = Ref(inst)
     if case["kind"] == "builders":
